@@ -140,6 +140,25 @@ Example T04_pop_refills_parent :
   end.
 Proof. vm_compute. auto. Qed.
 
+(** T04_bom_strip: removing a UCS-4 byte order mark from the raw buffer removes exactly those four bytes from the input that
+    is still to be decoded -- no byte of the first raw buffer is lost or decoded twice -- and keeps the index invariant.
+    (Tie to doInitDecode: the encoding-variant oracle of checks/C04.py, same text with and without BOM.) *)
+Theorem T04_bom_strip : forall c r, good c r ->
+  good c (ucs4_bom_strip r) /\
+  (is_ucs4_bom (rcur r) = true -> pending (ucs4_bom_strip r) = skipn 4 (pending r) /\ (4 <= length (rcur r))%nat) /\
+  (is_ucs4_bom (rcur r) = false -> ucs4_bom_strip r = r).
+Proof.
+  intros c r [G1 [G2 G3]]. unfold ucs4_bom_strip. destruct (is_ucs4_bom (rcur r)) eqn:E.
+  - assert (L : (4 <= length (rcur r))%nat).
+    { destruct (rcur r) as [|a [|b [|d [|e t]]]]; try discriminate. cbn. lia. }
+    split; [|split; [|discriminate]].
+    + unfold good. cbn [ccur cidx rcur ridx strm]. rewrite skipn_length. repeat split; auto. lia.
+    + intros _. split; [|exact L]. unfold pending. cbn [rcur strm]. rewrite skipn_app.
+      replace (4 - length (rcur r))%nat with 0%nat by lia. reflexivity.
+  - split; [unfold good; auto|]. split; [discriminate|reflexivity].
+Qed.
+Print Assumptions T04_bom_strip.
+
 (** the specification is total and deterministic: every byte string has exactly one decoding *)
 Theorem T04_spec_total : forall step X maxSeq s, xcontract step X maxSeq -> exists cs st, Dec step s cs st.
 Proof. intros step X maxSeq s HC. exact (Dec_total step X maxSeq HC s). Qed.
